@@ -68,3 +68,30 @@ impl<C, B> Pooled<C, B> where C: PoolableConnection<B>, B: Send + 'static {
         ensures r == self.connection
     { unimplemented!() }
 }
+
+// ---- tokio stand-ins (paths as written in /repo) ----
+/// ghost: the future `f` was handed to the runtime (it will be polled to completion or dropped)
+pub uninterp spec fn spawned<F>(f: F) -> bool;
+
+#[verifier::external_body]
+#[verifier::reject_recursive_types(T)]
+pub struct Receiver<T> { inner: std::marker::PhantomData<T> }
+impl<T> Receiver<T> {
+    pub uninterp spec fn id(&self) -> int;
+}
+
+pub mod tokio {
+    use super::*;
+    #[verifier::external_body]
+    pub fn spawn<F>(f: F)
+        ensures spawned(f)
+    { unimplemented!() }
+
+    pub mod sync { pub mod oneshot {
+        use super::super::super::*;
+        #[verifier::external_body]
+        pub fn channel<T>() -> (r: (Sender<T>, Receiver<T>))
+            ensures r.0.id() == r.1.id()
+        { unimplemented!() }
+    } }
+}
